@@ -3283,6 +3283,33 @@ static void AssembleFile(char* Name) {
             CloseIfOpen(&MacroFile);
         }
 
+#ifdef FLAMEWING_ASL_RELEASES_VERIF
+        /* verification hook (guarded, add-only): pass trace, forced extra passes, pass cap */
+        {
+            static int  ExtraDone = 0;
+            char const* pTrace    = getenv("ASL_VERIF_TRACE");
+            char const* pExtra    = getenv("ASL_VERIF_EXTRA_PASSES");
+            char const* pMax      = getenv("ASL_VERIF_MAX_PASSES");
+
+            if (pTrace) {
+                FILE* pFile = fopen(pTrace, "a");
+
+                if (pFile) {
+                    fprintf(pFile, "P %d %d %u %016llx\n", (int)PassNo, Repass ? 1 : 0,
+                            (unsigned)ErrorCount, (unsigned long long)VerifSymbolDigest());
+                    fclose(pFile);
+                }
+            }
+            if (pExtra && (ErrorCount == 0) && !Repass && (ExtraDone < atoi(pExtra))) {
+                ExtraDone++;
+                Repass = True;
+            }
+            if (pMax && (ErrorCount == 0) && Repass && (PassNo >= atoi(pMax))) {
+                exit(97);
+            }
+        }
+#endif /* FLAMEWING_ASL_RELEASES_VERIF */
+
         /* evtl. fuer naechsten Durchlauf aufraeumen */
 
         if ((ErrorCount == 0) && (Repass)) {
